@@ -31,6 +31,7 @@ ALLOWED_CONSTRUCTORS = {
                               "<bit_vector::BitVector as serialize::Serialize>::load",
                               "<bit_vector::BitVector as std::clone::Clone>::clone"},
     "sparse_vector::SparseVector": {"sparse_vector::SparseBuilder::new", "sparse_vector::SparseBuilder::multiset",
+                                    "<sparse_vector::SparseVector as std::convert::TryFrom<sparse_vector::SparseBuilder>>::try_from",   # (the end of the builder route)
                                     "<sparse_vector::SparseVector as serialize::Serialize>::load",
                                     "<sparse_vector::SparseVector as std::clone::Clone>::clone"},
     "rl_vector::RLVector": {"<rl_vector::RLVector as std::convert::From<rl_vector::RLBuilder>>::from",
